@@ -7,6 +7,7 @@ let tname_of_string s = match s with
   | "Int" -> TInt | "Float" -> TFloat | "String" -> TString | "Ref" -> TRef | "Tuple" -> TTuple
   | "Array" -> TArray | "List" -> TList | "Table" -> TTable | "Tree" -> TTree | "Function" -> TFunction
   | "Type" -> TType
+  | "S1" -> TUser (nat_of_int 101) | "S4" -> TUser (nat_of_int 104) | "S12" -> TUser (nat_of_int 112) | "S20" -> TUser (nat_of_int 120)
   | "Box" -> TUser (nat_of_int 10) | "Range" -> TUser (nat_of_int 11) | "File" -> TUser (nat_of_int 12) | "Mutex" -> TUser (nat_of_int 13)
   | _ when String.length s > 1 && s.[0] = 'U' -> TUser (nat_of_int (int_of_string (String.sub s 1 (String.length s - 1))))
   | _ -> failwith ("type " ^ s)
@@ -15,7 +16,7 @@ let string_of_tname t = match t with
   | TInt -> "Int" | TFloat -> "Float" | TString -> "String" | TRef -> "Ref" | TTuple -> "Tuple"
   | TArray -> "Array" | TList -> "List" | TTable -> "Table" | TTree -> "Tree" | TFunction -> "Function"
   | TType -> "Type"
-  | TUser n -> (match int_of_nat n with 10 -> "Box" | 11 -> "Range" | 12 -> "File" | 13 -> "Mutex" | k -> "U" ^ string_of_int k)
+  | TUser n -> (match int_of_nat n with 10 -> "Box" | 11 -> "Range" | 12 -> "File" | 13 -> "Mutex" | 101 -> "S1" | 104 -> "S4" | 112 -> "S12" | 120 -> "S20" | k -> "U" ^ string_of_int k)
 
 let cont_of_string s =
   (* "+g" = the container was grown and shrunk before the element was obtained: same producer *)
@@ -31,7 +32,7 @@ let producer_of_string s =
   match String.split_on_char ':' s with
   | ["new"] -> PNew | ["new_raw"] -> PNewRaw | ["new_root"] -> PNewRoot
   | ["alloc"] -> PAlloc | ["alloc_raw"] -> PAllocRaw | ["alloc_root"] -> PAllocRoot
-  | ["copy"] -> PCopy | ["stack"] -> PStack | ["static"] | ["static"; _] -> PStatic | ["rtype"] -> PRuntimeType
+  | ["copy"] -> PCopy | ["stack"] -> PStack | ["static_obj"] -> PStaticObj | ["static"] | ["static"; _] -> PStatic | ["rtype"] -> PRuntimeType
   | ["get"; c] -> PGet (cont_of_string c)
   | ["iter"; c] | ["last"; c] | ["next"; c] | ["prev"; c] -> PIter (cont_of_string c)
   | ["slice"; c] -> PSlice (cont_of_string c)
@@ -49,7 +50,7 @@ let op_of_string s =
   match s with
   | "del" -> OpDel | "del_raw" -> OpDelRaw | "del_root" -> OpDelRoot
   | "dealloc" -> OpDealloc | "dealloc_raw" -> OpDeallocRaw | "dealloc_root" -> OpDeallocRoot
-  | "destruct" -> OpDestruct | "assign" -> OpAssign | "resize" -> OpResize | "concat" -> OpConcat
+  | "destruct" -> OpDestruct | "assign" -> OpAssign | "assign_iter" -> OpAssignIter | "resize" -> OpResize | "concat" -> OpConcat
   | "append" -> OpAppend | "print_to" -> OpPrintTo | "push" -> OpPush | "pop" -> OpPop
   | "push_at" -> OpPushAt | "pop_at" -> OpPopAt | "rem" -> OpRem | "sweep" -> OpSweep | "del_stopped" -> OpDelStopped
   | _ -> failwith ("op " ^ s)
